@@ -181,6 +181,8 @@ def run(prog, rep, tier):
         rep.check("PAT.ordering", PT.lvl_of(obj.attrs["ordering"]) <= PT.PAT, fwhere(fc), "the generation order is pattern-only",
                   "the generation order depends on weight values (negative or cancelling weights reorder or drop variables)")
     pattern_method(prog, rep, AN + "sample", ["A"])
+    from .common import no_foreign_writes
+    no_foreign_writes(rep, prog, AN + "sample")
     rep.exhaustive = True      # the finite tables (pairs / valuations) are enumerated completely
     rep.require_count("CASES", 1)
     rep.require_count("ORDER", 3)
@@ -189,12 +191,24 @@ def run(prog, rep, tier):
 
 
 def stored_value(ev, nxt, X, i):
-    """the value written into X[:, i] by one iteration"""
-    t = nxt
-    while t[0] == "phi":
-        t = t[2] if ev.cond(t[1]) else t[3]
-    if t[0] != "store" or t[1] != X or t[4] is not None:
-        raise Inconclusive("iteration does not end in a single store into the result array: %s" % fmt(t)[:80])
-    if t[2] != ("tuple", (FULL, i)):
-        ev.problems.append("the draw is stored at %s, not in column i" % fmt(t[2]))
-    return ev.ev(t[3])
+    """the value held by column i of X after one iteration (several stores / `+=` on that column are summed up)"""
+    def col(t):
+        while t[0] == "phi":
+            t = t[2] if ev.cond(t[1]) else t[3]
+        if t == X:
+            return None                        # nothing written (yet)
+        if t[0] != "store":
+            raise Inconclusive("iteration updates the result array in an unrecognised way: %s" % fmt(t)[:80])
+        _, base, idx, val, aug = t
+        below = col(base)
+        if idx != ("tuple", (FULL, i)):
+            ev.problems.append("a draw is stored at %s, not in column i" % fmt(idx))
+        if aug is None:
+            return ev.ev(val)
+        if aug == "+":
+            return (below if below is not None else Counter()) + ev.ev(val)
+        raise Inconclusive("unsupported update %s= of the result column" % aug)
+    out = col(nxt)
+    if out is None:
+        raise Inconclusive("no store into the result array in this iteration")
+    return out
